@@ -822,7 +822,12 @@ func guardsAt(b *ssa.BasicBlock) []Atom {
 // assigned in between is another value, whatever it is called).  Applied to the dominators of b with
 // two or more predecessors, to a fixpoint.
 func resolveDisjunctions(b *ssa.BasicBlock, known []Atom) []Atom {
-	raw := rawGuardsAt(b)
+	return resolveDisjunctionsWith(b, known, nil)
+}
+
+// resolveDisjunctionsWith: the same, knowing in addition the conditions of the edge being left through.
+func resolveDisjunctionsWith(b *ssa.BasicBlock, known []Atom, extra []rawGuard) []Atom {
+	raw := append(append([]rawGuard{}, rawGuardsAt(b)...), extra...)
 	type cmp struct {
 		x, y ssa.Value
 		op   token.Token
@@ -1105,15 +1110,39 @@ func guardsOnEdge(pred, succ *ssa.BasicBlock) []Atom {
 		if iff, ok := pred.Instrs[len(pred.Instrs)-1].(*ssa.If); ok && pred.Succs[0] != pred.Succs[1] {
 			for idx := 0; idx < 2; idx++ {
 				if pred.Succs[idx] == succ {
-					for _, g := range expandCond(iff.Cond, idx == 0, 0) {
+					edge := expandCond(iff.Cond, idx == 0, 0)
+					for _, g := range edge {
 						if at, ok := condAtom(g.Cond, g.Positive); ok {
 							out = append(out, at.canon())
 						}
 						out = append(out, helperAtoms(g)...)
 					}
+					// what the edge's own condition settles among the ways into pred and its dominators
+					out = resolveDisjunctionsWith(pred, out, edge)
 				}
 			}
 		}
+	}
+	return out
+}
+
+// guardAlternativesOnEdge: what is known when control passes from pred to succ, one set per way of
+// getting there: when pred is a join of forward edges that does nothing but pass control on (the
+// shared body of `if a || (b && c) { … }`), each way into it is considered on its own, so that a fact
+// that holds on every way in for a different reason on each is still seen.
+func guardAlternativesOnEdge(pred, succ *ssa.BasicBlock) [][]Atom {
+	base := guardsOnEdge(pred, succ)
+	if len(pred.Preds) < 2 {
+		return [][]Atom{base}
+	}
+	for _, pp := range pred.Preds {
+		if pred.Dominates(pp) {
+			return [][]Atom{base}
+		}
+	}
+	var out [][]Atom
+	for _, pp := range pred.Preds {
+		out = append(out, append(append([]Atom{}, base...), guardsOnEdge(pp, pred)...))
 	}
 	return out
 }
